@@ -514,7 +514,7 @@ pub fn run(tier: Tier) -> i32 {
         // (two orders) and the completed world is judged for agreement
         // per-transition judgement to the full cluster depth first (cheap) ...
         // the third-window system replays a long start-state prefix for every expansion: one level less
-        let plain_depth = if inner.name.contains("third-window") { cdepth - 1 } else if inner.name.starts_with("R3-") { cdepth + 2 } else { cdepth };
+        let plain_depth = if inner.name.contains("third-window") { cdepth - 1 } else if inner.name.starts_with("R3-") { cdepth + 1 } else { cdepth };
         let limits = BfsLimits::new(plain_depth, tier.pick(400_000, 30_000_000), tier.pick(10, 150));
         let plain = bfs(&inner, &inner.name, &limits, &report);
         println!("  {}: states={} transitions={} depth_completed={} capped={:?} (per-transition oracle only)", inner.name, plain.states, plain.transitions, plain.depth_completed, plain.capped);
